@@ -53,6 +53,11 @@ fn edits_of(p: &Printed) -> Vec<(Edit, &'static str)> {
         v.push((Edit::Insert(g, "[- é 😀 -]"), "block comment with multi-byte characters between words"));
         v.push((Edit::Insert(g, " \n"), "line wrapped with trailing spaces between words"));
     }
+    for &g in &p.value_gaps {
+        v.push((Edit::Insert(g, "[- c -]"), "block comment between the words of a numeric value"));
+        v.push((Edit::Insert(g, "[- c -] "), "block comment and a space between the words of a numeric value"));
+        v.push((Edit::Insert(g, "[- é -][- d -]"), "two block comments between the words of a numeric value"));
+    }
     let nl = if p.src.contains('\r') { "\r\n" } else { "\n" };
     for &b in &p.block_starts {
         if nl == "\n" {
@@ -122,7 +127,68 @@ fn check_recipe(r: &Recipe, cfg: Config, parser: &cooklang::CooklangParser, pair
     out
 }
 
+/// the same transformations with one very long comment / run of blanks (sizes around 2^16)
+fn long_edits(cfg: Config, parser: &cooklang::CooklangParser, local: &mut Local) -> Vec<Violation> {
+    let mut out = Vec::new();
+    let comps = l1_components(cfg);
+    let blocks = l3_alphabet(cfg);
+    let mut recipes: Vec<Recipe> = comps.iter().step_by(comps.len() / 5 + 1).map(|c| l1_recipe(c, 1)).collect();
+    recipes.extend([vec![0usize, 8, 3], vec![5, 8, 9, 10], vec![6, 10, 0, 9]].iter().filter_map(|s| l3_recipe(&blocks, s)));
+    for size in [65_535usize, 65_536, 70_001] {
+        let leak = |s: String| -> &'static str { Box::leak(s.into_boxed_str()) };
+        let trailing_comment = leak(format!(" -- {}", "c".repeat(size)));
+        let trailing_spaces = leak(" ".repeat(size));
+        let block_comment = leak(format!("[- {} -]", "é".repeat(size / 2)));
+        let comment_line = leak(format!("-- {}\n", "c".repeat(size)));
+        let blank_lines = leak("\n".repeat(size));
+        for r in &recipes {
+            if expected(r, cfg).is_err() {
+                continue;
+            }
+            let mut ch = Chooser::new(Mode::Prefix(vec![]));
+            let p = print(r, cfg, &mut ch);
+            if p.src.contains('\r') {
+                continue;
+            }
+            let base_img = result_image(&parser.parse(&p.src));
+            let mut edits: Vec<(Edit, &'static str)> = Vec::new();
+            for &e in &p.line_ends {
+                edits.push((Edit::Insert(e, trailing_comment), "very long trailing comment"));
+                edits.push((Edit::Insert(e, trailing_spaces), "very many trailing spaces"));
+            }
+            for &g in p.gaps.iter().chain(&p.value_gaps) {
+                edits.push((Edit::Insert(g, block_comment), "very long block comment between words"));
+            }
+            for &b in &p.block_starts {
+                edits.push((Edit::Insert(b, comment_line), "very long comment-only line"));
+                edits.push((Edit::Insert(b, blank_lines), "very many blank lines"));
+            }
+            for (e, name) in edits {
+                local.evaluations += 1;
+                local.nontrivial += 1;
+                let s2 = apply(&p.src, &[e.clone()]);
+                let img = result_image(&parser.parse(&s2));
+                if img != base_img {
+                    let pos = if let Edit::Insert(pos, _) = e { pos } else { 0 };
+                    out.push(Violation::new(
+                        format!("{name} changes the recipe"),
+                        format!("{:?} parses to {base_img}; after [{name} of {size} bytes at offset {pos}] it parses to {img}", p.src),
+                        json!({"kind": "long edit", "input": p.src, "extended": cfg.extended, "edit": name, "size": size, "offset": pos}),
+                    ));
+                    return out;
+                }
+            }
+        }
+    }
+    out
+}
+
 pub fn replay(case: &J) -> Vec<Violation> {
+    if case["kind"] == "long edit" {
+        let cfg = Config { extended: case["extended"].as_bool().unwrap_or(true) };
+        let mut local = Local::for_replay();
+        return long_edits(cfg, &parser_for(cfg), &mut local);
+    }
     if case["kind"] == "metamorphic" {
         let cfg = Config { extended: case["extended"].as_bool().unwrap_or(true) };
         let parser = parser_for(cfg);
@@ -144,7 +210,7 @@ pub fn replay(case: &J) -> Vec<Violation> {
 
 pub fn run(tier: Tier) {
     let c = ctx();
-    c.set_rule("metamorphic: for every well-formed model recipe (L1 components in 2 contexts, L2 pairs, L3 block sequences; both configurations) in its default and its all-alternatives spelling, every single application (thorough: every pair) of: LF->CRLF, a trailing comment / spaces / tab / block comment appended to line i (every Cooklang line), a (multi-line) block comment inserted at inter-word gap j (every gap in step text, paragraphs and multi-word names), an extra blank / comment-only / block-comment-only line at block boundary k; the normalised recipe image (adjacent text joined, whitespace runs collapsed, ends trimmed, empty text dropped) and validity must be unchanged; plus CRLF / mixed line endings on every token-alphabet string up to n symbols without backslash or lone CR; non-trivial = well-formed recipes / strings with a line break; distinct = distinct edited sources");
+    c.set_rule("metamorphic: for every well-formed model recipe (L1 components in 2 contexts, L2 pairs, L3 block sequences; both configurations) in its default and its all-alternatives spelling, every single application (thorough: every pair) of: LF->CRLF, a trailing comment / spaces / tab / block comment appended to line i (every Cooklang line), a (multi-line) block comment inserted at inter-word gap j (every gap in step text, paragraphs and multi-word names; single-line comments also at every blank inside a numeric quantity value such as `1 1 / 2` or `2 - 3`), an extra blank / comment-only / block-comment-only line at block boundary k; the normalised recipe image (adjacent text joined, whitespace runs collapsed, ends trimmed, empty text dropped) and validity must be unchanged; plus CRLF / mixed line endings on every token-alphabet string up to n symbols without backslash or lone CR; non-trivial = well-formed recipes / strings with a line break; distinct = distinct edited sources");
     let pairs = tier == Tier::Thorough;
     for cfg in [Config { extended: false }, Config { extended: true }] {
         let cname = if cfg.extended { "extended" } else { "canonical" };
@@ -188,6 +254,13 @@ pub fn run(tier: Tier) {
             }
             v
         });
+        if c.has_violations() {
+            return;
+        }
+    }
+    for cfg in [Config { extended: false }, Config { extended: true }] {
+        let parser = Arc::new(parser_for(cfg));
+        sweep(&format!("C17 {}: one very long comment / run of blanks (65535, 65536, 70001 bytes) at every insertion point of 8 recipes", if cfg.extended { "extended" } else { "canonical" }), 1, |_| json!({"kind": "long edit"}), move |_, local| long_edits(cfg, &parser, local));
         if c.has_violations() {
             return;
         }
